@@ -369,7 +369,7 @@ def chain_case(rng, pat, steps, through_cli=False):
     d = gen_day(rng)
     d = d.replace(year=2000 + d.year % 60)
     _, vj = gen_record(rng, d)
-    vj["bid"] = rng.choice(["0001", "0997", "1000", "1998", "8990", "0099", str(rng.randint(1000, 9000))])
+    vj["bid"] = rng.choice(["0001", "0997", "1000", "1998", "8990", "0099", "9997", "9999", "99998", "99999", str(rng.randint(1000, 9000))])
     f = impl.v1_format(vj, pat)
     case = {"kind": "chain", "pattern": pat, "start": f.get("ok"), "cli": through_cli, "steps": []}
     if "ok" not in f:
@@ -393,7 +393,10 @@ def chain_case(rng, pat, steps, through_cli=False):
         else:
             r = impl.v1_incr(cur, pat, fl, ymd(d), today)
             if "err" in r:
-                if r["err"] == "OverflowError" and set(re.sub(r"\D", "", vj["bid"])) <= set("9"):
+                # an id of all nines is the lexid scheme's documented maximum: no successor (and no result) is the specified outcome
+                pcur = impl.v1_parse(cur, pat)
+                cur_bid = (pcur.get("ok") or {}).get("bid", "") if isinstance(pcur, dict) else ""
+                if r["err"] == "OverflowError" and cur_bid and set(cur_bid) <= set("9"):
                     break
                 case["steps"] = case["steps"][-3:] + [[cur, fl, ymd(d), r]]
                 return case, "incr(%r, %r, %s, date=%s) crashed: %r" % (cur, pat, {k: v for k, v in fl.items() if v}, d, r), done
